@@ -147,6 +147,7 @@ class Run:
         self.t0 = time.time()
         self.evaluations = 0
         self.sigs: set[str] = set()
+        self.extra_distinct = 0
         self.counters: Counter = Counter()
         self.violations: list[dict] = []
         self.inconclusive: list[str] = []
@@ -184,10 +185,12 @@ class Run:
 
     # -- aggregation ---------------------------------------------------------------
     def absorb(self, res: dict):
-        self.evaluations += 1
+        self.evaluations += int(res.get('evaluations') or 1)
         if res.get('inconclusive'):
             self.inconclusive.append(res['inconclusive'])
-        if res.get('nontrivial') and res.get('sig') is not None:
+        if res.get('distinct') is not None:
+            self.extra_distinct += int(res['distinct'])  # the worker counted its own distinct sub-cases (a set size)
+        elif res.get('nontrivial') and res.get('sig') is not None:
             self.sigs.add(res['sig'])
         for key, val in (res.get('counters') or {}).items():
             self.counters[key] += val
@@ -247,7 +250,7 @@ class Run:
 
         coverage = {
             'evaluations': self.evaluations,
-            'distinct_nontrivial': len(self.sigs),
+            'distinct_nontrivial': len(self.sigs) + self.extra_distinct,
             'rule': self.rule,
             'samples': self.samples,
             'counters': dict(sorted(self.counters.items())),
@@ -302,7 +305,7 @@ class Run:
             return EXIT_INCONCLUSIVE
         print(
             f'HELD property={self.prop} tier={self.tier} seed={self.seed} evaluations={self.evaluations} '
-            f'distinct_nontrivial={len(self.sigs)} wall_s={wall:.1f} {counters_txt}'
+            f'distinct_nontrivial={len(self.sigs) + self.extra_distinct} wall_s={wall:.1f} {counters_txt}'
         )
         self.cleanup()
         return EXIT_HELD
